@@ -2,8 +2,10 @@ SPECIFICATION Spec
 CONSTANT Calls <- K3
 CONSTANT Failing <- F3
 CONSTANT GiveBackOnFailure = FALSE
+CONSTANT Fix_SnapshotLookup = TRUE
 CONSTANT Fix_RegisterAtomic = TRUE
 CONSTANT Fix_ExplicitCheck = TRUE
 INVARIANT NoSharedId
 INVARIANT AutoIdsUnique
+INVARIANT RefusedUpFront
 CHECK_DEADLOCK FALSE
